@@ -540,7 +540,7 @@ func (c *FnCtx) nilCheck(v ssa.Value, ref Term, pos token.Pos) {
 	}
 	txt := c.g.exprTextAt(pos, "nil")
 	if txt == "" {
-		txt = v.Name()
+		txt = stableName(v)
 	}
 	o := c.oblig(fmt.Sprintf("%s/nil:%s", c.name, txt), "nil", c.g.posStr(pos), true)
 	c.assert(o, not(eq(ref, "0")))
